@@ -49,7 +49,7 @@ Lemma tr_node_rep : forall body count st,
    if set_eqb pre post then
      let stable := if count <=? 1 then true
                    else match tr_nodes body (with_label st1 (idx + 1)) with
-                        | Ok (cs1', _) => cmds_eqb cs1 cs1'
+                        | Ok (cs1', st1') => cmds_same cs1 cs1' && t_stable st1'
                         | Err _ => false
                         end in
      Ok (CLabel idx count :: cs1 ++ [CJmp idx], with_stable st1 (t_stable st1 && stable))
